@@ -1,3 +1,486 @@
-//! C08 bounded native checks (not written yet)
+//! C08 bounded: alignment parameters round-trip and Jacobians are true derivatives -- evaluated on the REAL code.
+//! NOT a proof: "Jacobian entry == derivative" is decided here only by finite differences on an enumerated grid
+//! (testing-grade evidence, labelled bounded, never counted as a discharged obligation).
+//!
+//! (a) PARAMETERS.  2D: 23 rotation angles (0, +-1e-9, +-0.3, +-1, +-pi/2, +-100, +-135, +-170, +-175 degrees,
+//!     +-(pi - 1e-9), +-pi) x 4 translations (up to 1e3) x 4 rotation centres (up to 1e3 from the origin).  3D: Euler
+//!     triples roll x pitch x yaw (6 x 27 x 5; pitch exactly +-pi/2, within 1e-9 / 1e-8 / 1e-6 / 1e-4 / 1e-3 of +-pi/2 on both sides,
+//!     beyond +-90 degrees; roll / yaw at and within 1e-9 / 1e-6 of +-pi), composed BOTH as Rx*Ry*Rz (engeom's order,
+//!     where to_wpr's gimbal branches live) and as nalgebra's from_euler_angles (Rz*Ry*Rx, where nalgebra's
+//!     euler_angles branches live) x 3 translations (up to 1e3) x 3 rotation centres (up to 1e3 from the origin).
+//!     Clauses: iso -> params -> iso is the identity (matrix entries within 1e-9); RcParams2/3::from_initial(t, rc)
+//!     .transform() == t; after construction AND after each of a sequence of set() calls (angles beyond +-pi, pitch
+//!     exactly +-pi/2, translations up to 500): x() is the vector set, transform * p == rc' + t + R(angles)(p - rc)
+//!     recomputed by hand from the parameters (rc' = initial * rc), transform * inverse == identity, current_rc ==
+//!     transform * rc, the stored rotation(s) belong to the same parameters; a pure-translation parameter change
+//!     translates every probe point by exactly that vector.  ParamHandler (multi-body): p_index, set_param /
+//!     get_transform / relative_transform / set_jacobian against the same hand-made oracle.
+//! (b) JACOBIANS.  Every analytic entry vs the 4th-order CENTRAL finite difference (step 1e-4) of the corresponding
+//!     residual w.r.t. that parameter, tolerance 1e-6 * (1 + |entry|): 2D point_surface_jacobian (signed distance to the
+//!     line), 3D point_plane_jacobian (|n.(T p - c)|), point_plane_jacobian_rev (the REFERENCE moves; surface point =
+//!     foot of the perpendicular from the test point, as the callers supply it), point_point_jacobian (|T p - c|), over
+//!     poses with starting transforms up to 1e3 away / rotations up to 170 degrees / pitch exactly pi/2, rotation
+//!     centres up to 1e3 from the origin, the state as constructed and after a set(), test points 3.7 .. 39 from the
+//!     moved centre, planes / lines in general position at distance >= 0.75, point pairs >= 2 apart (the
+//!     non-differentiable configurations -- zero distance, a sign change inside the stencil -- are excluded).
+//!     Euler derivative matrices: RotationMatrices::from_euler over {-2.5, -pi/2, -0.4, 0, 0.3, pi/2, 3}^3: q == Rx*Ry*Rz
+//!     built by hand from sin / cos, d.k == finite difference of that matrix w.r.t. angle k, rd.k == d.k * R^T (1e-7).
 use super::Report;
-pub fn run() -> Option<Report> { None }
+use crate::geom2::align2::{iso2_from_param, param_from_iso2, RcParams2};
+use crate::geom2::{Iso2, Point2, SurfacePoint2, Vector2};
+use crate::geom3::align3::jacobian::{point_plane_jacobian, point_plane_jacobian_rev, point_point_jacobian};
+use crate::geom3::align3::multi_param::ParamHandler;
+use crate::geom3::align3::{iso3_from_param, param_from_iso3, RcParams3, RotationMatrices};
+use crate::geom3::{Iso3, Point3, SurfacePoint3, Vector3};
+use parry3d_f64::na::{self, DMatrix, DVector, Matrix3, Translation2, Translation3, UnitComplex, UnitQuaternion, Vector6};
+use std::f64::consts::{FRAC_PI_2, PI};
+
+/// matrix-entry tolerance of the parameter clauses (translation entries relative to 1 + the size of the configuration)
+const TOL_RT: f64 = 1e-9;
+/// Jacobian entry vs finite difference: |a - fd| <= TOL_J * (1 + |a|)
+const TOL_J: f64 = 1e-6;
+/// Euler derivative matrices vs finite difference of the hand-made rotation matrix
+const TOL_D: f64 = 1e-7;
+/// finite-difference step (4th-order central stencil: x -2h, -h, +h, +2h)
+const H: f64 = 1e-4;
+
+// ------------------------------------------------------------------------------------------------ measuring aid
+// VERIF_C08_MEASURE=1 prints the largest error seen per clause to stderr (how the tolerances were chosen).
+struct Meter { on: bool, max: Vec<(String, f64, String)> }
+impl Meter {
+    fn new() -> Self { Meter { on: std::env::var("VERIF_C08_MEASURE").is_ok(), max: vec![] } }
+    fn see<F: FnOnce() -> String>(&mut self, what: &str, e: f64, input: F) {
+        if !self.on { return; }
+        if let Some(m) = self.max.iter_mut().find(|m| m.0 == what) {
+            if e > m.1 || e.is_nan() { m.1 = e; m.2 = input(); }
+        } else { self.max.push((what.to_string(), e, input())); }
+    }
+    fn dump(&self) { if self.on { for m in &self.max { eprintln!("C08-MEASURE {:.3e}  {}  @ {}", m.1, m.0, m.2); } } }
+}
+struct Ctx { r: Report, m: Meter }
+impl Ctx {
+    /// one clause: error measure e must be <= tol (NaN fails)
+    fn le<F: Fn() -> String>(&mut self, e: f64, tol: f64, what: &str, input: F) {
+        self.m.see(what, e, &input);
+        self.r.check(e <= tol, what, || format!("{} | error {:.3e} > {:.1e}", input(), e, tol));
+    }
+}
+
+// ------------------------------------------------------------------------------------------------ 2D helpers
+fn iso2(tx: f64, ty: f64, a: f64) -> Iso2 { Iso2::from_parts(Translation2::new(tx, ty), UnitComplex::new(a)) }
+fn err_iso2(a: &Iso2, b: &Iso2, scale: f64) -> f64 {
+    let (ma, mb) = (a.to_homogeneous(), b.to_homogeneous());
+    let mut e: f64 = 0.0;
+    for i in 0..2 { for j in 0..2 { e = e.max((ma[(i, j)] - mb[(i, j)]).abs()); } }
+    for i in 0..2 { e = e.max((ma[(i, 2)] - mb[(i, 2)]).abs() / (1.0 + scale)); }
+    if ma.iter().chain(mb.iter()).any(|v| !v.is_finite()) { f64::NAN } else { e }
+}
+fn err_p2(a: &Point2, b: &Point2, scale: f64) -> f64 {
+    let e = (a.x - b.x).abs().max((a.y - b.y).abs()) / (1.0 + scale);
+    if a.coords.iter().chain(b.coords.iter()).any(|v| !v.is_finite()) { f64::NAN } else { e }
+}
+fn size2(t: &Iso2, rc: &Point2) -> f64 { t.translation.vector.amax().max(rc.coords.amax()) }
+/// the 2D oracle, by hand from the parameters: p -> rc + (x, y) + R(z)(p - rc)
+fn oracle2(x: &na::Vector3<f64>, rc: &Point2, p: &Point2) -> Point2 {
+    let (s, c) = x.z.sin_cos();
+    let v = p - rc;
+    Point2::new(rc.x + x.x + c * v.x - s * v.y, rc.y + x.y + s * v.x + c * v.y)
+}
+
+// optional hook: `geom2::align2::verif_point_surface_jacobian` exists in every tree that carries the hook commit
+// ("verif hook: guarded re-export of the private 2D Jacobian row"); on an older tree the 2D Jacobian clause is skipped
+// instead of breaking the build of all bounded checks (a glob import inside a block shadows the module-level fallback).
+mod hook2 {
+    use super::*;
+    pub struct Missing;
+    pub trait Row { fn row(self) -> Option<[f64; 3]>; }
+    impl Row for Missing { fn row(self) -> Option<[f64; 3]> { None } }
+    impl Row for na::Vector3<f64> { fn row(self) -> Option<[f64; 3]> { Some([self.x, self.y, self.z]) } }
+    pub fn verif_point_surface_jacobian(_p: &Point2, _s: &SurfacePoint2, _q: &RcParams2) -> Missing { Missing }
+}
+#[allow(unused_imports)]
+use hook2::verif_point_surface_jacobian;
+fn jac2(p: &Point2, s: &SurfacePoint2, q: &RcParams2) -> Option<[f64; 3]> {
+    #[allow(unused_imports)]
+    use crate::geom2::align2::*;
+    use hook2::Row;
+    verif_point_surface_jacobian(p, s, q).row()
+}
+
+/// 4th-order central difference of f at 0 with step H
+fn fd4<F: Fn(f64) -> f64>(f: F) -> f64 { (f(-2.0 * H) - 8.0 * f(-H) + 8.0 * f(H) - f(2.0 * H)) / (12.0 * H) }
+
+fn angles2() -> Vec<f64> {
+    let d = PI / 180.0;
+    let mut v = vec![0.0];
+    for a in [1e-9, 0.3, 1.0, FRAC_PI_2, 100.0 * d, 135.0 * d, 170.0 * d, 175.0 * d, PI - 1e-9, PI] { v.push(a); v.push(-a); }
+    v
+}
+fn probes2() -> Vec<Point2> { vec![Point2::new(0.0, 0.0), Point2::new(3.0, -1.5), Point2::new(-40.0, 25.0), Point2::new(900.0, 300.0)] }
+
+fn state2(c: &mut Ctx, q: &RcParams2, rc: &Point2, x: &na::Vector3<f64>, scale: f64, tag: &str, inp: &dyn Fn() -> String) {
+    let w = |s: &str| format!("2D {}: {}", tag, s);
+    let ex = (q.x() - x).amax();
+    c.le(ex, 0.0, &w("x() is the parameter vector that was set"), inp);
+    c.le(err_p2(q.rc(), rc, 0.0), 0.0, &w("rc() is the rotation centre given"), inp);
+    let mut e: f64 = 0.0;
+    for p in probes2() { e = e.max(err_p2(&(q.transform() * p), &oracle2(x, rc, &p), scale.max(p.coords.amax()))); }
+    c.le(e, TOL_RT, &w("transform is rc + (x, y) + R(z)(p - rc) for the current parameters"), inp);
+    c.le(err_iso2(&(q.transform() * q.inverse()), &Iso2::identity(), scale), TOL_RT, &w("transform * inverse is the identity"), inp);
+    c.le(err_iso2(&(q.inverse() * q.transform()), &Iso2::identity(), scale), TOL_RT, &w("inverse * transform is the identity"), inp);
+    c.le(err_p2(q.current_rc(), &(q.transform() * rc), scale), TOL_RT, &w("current_rc is transform * rc"), inp);
+    c.le(err_iso2(q.rotation(), &iso2(0.0, 0.0, x.z), 0.0), TOL_RT, &w("rotation() is the rotation by the current angle"), inp);
+}
+
+fn run2(c: &mut Ctx) {
+    let trs = [(0.0, 0.0), (3.0, -2.0), (1000.0, -750.0), (-0.125, 640.0)];
+    let rcs = [Point2::new(0.0, 0.0), Point2::new(1.5, -2.25), Point2::new(700.0, -700.0), Point2::new(-1000.0, 0.0)];
+    let sets = [
+        na::Vector3::new(0.5, -0.25, 0.4), na::Vector3::new(-500.0, 250.0, 3.5), na::Vector3::new(0.0, 0.0, -4.0),
+        na::Vector3::new(12.0, 7.0, PI), na::Vector3::new(1.0, 2.0, -FRAC_PI_2), na::Vector3::new(0.0, 0.0, 0.0),
+    ];
+    let shifts = [Vector2::new(1.0, 0.0), Vector2::new(-0.375, 12.5), Vector2::new(300.0, -0.001)];
+    for a in angles2() { for (tx, ty) in trs {
+        let t = iso2(tx, ty, a);
+        c.r.case();
+        let inp = || format!("t = translation ({}, {}) after rotation by {:e} rad", tx, ty, a);
+        // ---- iso -> params -> iso
+        let x = param_from_iso2(&t);
+        c.le(err_iso2(&iso2_from_param(&x), &t, 0.0), TOL_RT, "2D: iso2_from_param(param_from_iso2(t)) == t", inp);
+        c.r.check(x.z > -PI - 1e-15 && x.z <= PI, "2D: param_from_iso2 returns the principal angle in (-pi, pi]", || format!("{} | angle {:e}", inp(), x.z));
+        c.le((x.x - tx).abs().max((x.y - ty).abs()), 0.0, "2D: param_from_iso2 returns the translation in slots 0, 1", inp);
+        // ---- params -> iso -> params (angle strictly inside (-pi, pi))
+        if a.abs() < PI - 1e-6 {
+            let x0 = na::Vector3::new(tx, ty, a);
+            let x1 = param_from_iso2(&iso2_from_param(&x0));
+            c.le((x1 - x0).amax(), TOL_RT, "2D: param_from_iso2(iso2_from_param(x)) == x for |angle| < pi", inp);
+        }
+        for rc in rcs.iter() {
+            let scale = size2(&t, rc);
+            let inp = || format!("initial = translation ({}, {}) after rotation by {:e} rad, rc = ({}, {})", tx, ty, a, rc.x, rc.y);
+            let mut q = RcParams2::from_initial(&t, rc);
+            c.le(err_iso2(q.transform(), &t, scale), TOL_RT, "2D: RcParams2::from_initial(initial, rc).transform() == initial", inp);
+            c.le(err_p2(q.current_rc(), &(t * rc), scale), TOL_RT, "2D: RcParams2::from_initial: current_rc == initial * rc", inp);
+            let x0 = *q.x();
+            state2(c, &q, rc, &x0, scale, "RcParams2 as constructed", &inp);
+            // a pure-translation parameter change translates by that vector wherever the centre is
+            for d in shifts.iter() {
+                let mut q2 = q.clone();
+                q2.set(&na::Vector3::new(x0.x + d.x, x0.y + d.y, x0.z));
+                let mut e: f64 = 0.0;
+                for p in probes2() { e = e.max(err_p2(&(q2.transform() * p), &(q.transform() * p + d), scale.max(p.coords.amax()).max(d.amax()))); }
+                c.le(e, TOL_RT, "2D: a pure-translation parameter change translates every point by exactly that vector", || format!("{} | shift ({}, {})", inp(), d.x, d.y));
+            }
+            // a sequence of set() calls: everything derived from x follows
+            if (tx == 3.0 || tx == 1000.0) && (a == 0.0 || a.abs() == FRAC_PI_2 || a.abs() > 2.9) {
+                for (k, x) in sets.iter().enumerate() {
+                    q.set(x);
+                    let sc = scale.max(x.x.abs()).max(x.y.abs());
+                    let inp2 = || format!("{} | after set #{} x = ({}, {}, {})", inp(), k, x.x, x.y, x.z);
+                    state2(c, &q, rc, x, sc, "RcParams2 after set()", &inp2);
+                }
+            }
+        }
+    } }
+}
+
+fn jacobians2(c: &mut Ctx) {
+    let d = PI / 180.0;
+    let inits = [iso2(0.0, 0.0, 0.0), iso2(1.0, 1.0, FRAC_PI_2), iso2(1000.0, -750.0, 170.0 * d), iso2(-20.0, 640.0, -2.0), iso2(5.0, 3.0, PI)];
+    let rcs = [Point2::new(0.0, 0.0), Point2::new(2.0, 0.0), Point2::new(-600.0, 750.0)];
+    let offs = [Vector2::new(1.0, 0.0), Vector2::new(-3.5, 2.0), Vector2::new(12.0, -30.0)];
+    let nangs = [0.0, 0.9, 2.4, -1.7, PI];
+    let dists = [0.75, -1.5];
+    for t in inits.iter() { for rc in rcs.iter() { for moved in [false, true] {
+        let mut q = RcParams2::from_initial(t, rc);
+        if moved { let x = q.x() + na::Vector3::new(0.5, -0.25, 0.3); q.set(&x); }
+        let x0 = *q.x();
+        let crc = *q.current_rc();
+        for o in offs.iter() { for na_ in nangs { for dd in dists {
+            c.r.case();
+            let p = crc + o;                                       // the test point, already moved by the current transform
+            let n = Vector2::new(na_.cos(), na_.sin());
+            let sp = SurfacePoint2::new_normalize(p - n * dd + Vector2::new(-n.y, n.x) * 1.25, n);
+            let inp = || format!("initial = ({}, {}, {:e} rad), rc = ({}, {}), after set: {}, p = current_rc + ({}, {}), line normal angle {}, signed distance {}",
+                t.translation.vector.x, t.translation.vector.y, t.rotation.angle(), rc.x, rc.y, moved, o.x, o.y, na_, dd);
+            let j = match jac2(&p, &sp, &q) { Some(j) => j, None => return };
+            let p0 = q.inverse() * p;
+            for k in 0..3 {
+                let fd = fd4(|h| { let mut q2 = q.clone(); let mut x = x0; x[k] += h; q2.set(&x); sp.scalar_projection(&(q2.transform() * p0)) });
+                c.le((j[k] - fd).abs() / (1.0 + j[k].abs()), TOL_J, "2D: point_surface_jacobian entry == central finite difference of the signed distance w.r.t. that parameter", || format!("{} | parameter {} analytic {:e} fd {:e}", inp(), k, j[k], fd));
+            }
+        } } }
+    } } }
+}
+
+// ------------------------------------------------------------------------------------------------ 3D helpers
+fn rx(a: f64) -> Matrix3<f64> { let (s, c) = a.sin_cos(); Matrix3::new(1.0, 0.0, 0.0, 0.0, c, -s, 0.0, s, c) }
+fn ry(a: f64) -> Matrix3<f64> { let (s, c) = a.sin_cos(); Matrix3::new(c, 0.0, s, 0.0, 1.0, 0.0, -s, 0.0, c) }
+fn rz(a: f64) -> Matrix3<f64> { let (s, c) = a.sin_cos(); Matrix3::new(c, -s, 0.0, s, c, 0.0, 0.0, 0.0, 1.0) }
+/// engeom's composition order (rotations.rs: q = x * y * z)
+fn rxyz(a: f64, b: f64, g: f64) -> Matrix3<f64> { rx(a) * ry(b) * rz(g) }
+fn qmat(q: &UnitQuaternion<f64>) -> Matrix3<f64> { *q.to_rotation_matrix().matrix() }
+fn quat_xyz(a: f64, b: f64, g: f64) -> UnitQuaternion<f64> {
+    UnitQuaternion::from_euler_angles(a, 0.0, 0.0) * UnitQuaternion::from_euler_angles(0.0, b, 0.0) * UnitQuaternion::from_euler_angles(0.0, 0.0, g)
+}
+fn err_m3(a: &Matrix3<f64>, b: &Matrix3<f64>) -> f64 {
+    if a.iter().chain(b.iter()).any(|v| !v.is_finite()) { return f64::NAN; }
+    (a - b).amax()
+}
+fn err_iso3(a: &Iso3, b: &Iso3, scale: f64) -> f64 {
+    let er = err_m3(&qmat(&a.rotation), &qmat(&b.rotation));
+    let et = (a.translation.vector - b.translation.vector).amax() / (1.0 + scale);
+    if !et.is_finite() { f64::NAN } else { er.max(et) }
+}
+fn err_p3(a: &Point3, b: &Point3, scale: f64) -> f64 {
+    let e = (a - b).amax() / (1.0 + scale);
+    if a.coords.iter().chain(b.coords.iter()).any(|v| !v.is_finite()) { f64::NAN } else { e }
+}
+/// the 3D oracle, by hand from the parameters: p -> rc_d + (x0, x1, x2) + Rx(x3) Ry(x4) Rz(x5) (p - rc)
+fn oracle3(x: &Vector6<f64>, rc: &Point3, rc_d: &Point3, p: &Point3) -> Point3 {
+    rc_d + Vector3::new(x[0], x[1], x[2]) + rxyz(x[3], x[4], x[5]) * (p - rc)
+}
+fn probes3() -> Vec<Point3> { vec![Point3::new(0.0, 0.0, 0.0), Point3::new(3.0, -1.5, 2.0), Point3::new(-40.0, 25.0, 10.0), Point3::new(900.0, 300.0, -500.0)] }
+
+fn rolls() -> Vec<f64> { vec![0.0, 0.4, -2.0, PI - 1e-9, -(PI - 1e-6), PI] }
+fn pitches() -> Vec<(f64, u8)> {
+    // (pitch, class): 0 general, 1 exactly +-pi/2, 2 within 1e-9 .. 1e-3 of +-pi/2 (either side)
+    let mut v = vec![(0.0, 0), (0.7, 0), (-1.2, 0), (2.0, 0), (-2.8, 0)];
+    for s in [1.0, -1.0] {
+        for e in [1e-6, 1e-9, 1e-3, 1e-4, 1e-8] { v.push((s * (FRAC_PI_2 - e), 2)); v.push((s * (FRAC_PI_2 + e), 2)); }
+        v.push((s * FRAC_PI_2, 1));
+    }
+    v
+}
+fn yaws() -> Vec<f64> { vec![0.0, -0.9, 2.5, PI - 1e-9, -PI] }
+fn class_name(k: u8) -> &'static str { match k { 0 => "general pose", 1 => "pitch exactly +-pi/2", _ => "pitch within 2e-3 of +-pi/2 but not exactly" } }
+/// how far a rotation is from gimbal lock, measured on its matrix: (in engeom's order Rx*Ry*Rz, in nalgebra's order Rz*Ry*Rx)
+fn gimbal_offsets(m: &Matrix3<f64>) -> (f64, f64) {
+    (m[(0, 0)].hypot(m[(0, 1)]).atan2(m[(0, 2)].abs()), m[(0, 0)].hypot(m[(1, 0)]).atan2(m[(2, 0)].abs()))
+}
+
+#[allow(clippy::too_many_arguments)]
+fn state3(c: &mut Ctx, q: &RcParams3, rc: &Point3, rc_d: &Point3, x: &Vector6<f64>, scale: f64, tag: &str, inp: &dyn Fn() -> String) {
+    let w = |s: &str| format!("3D {}: {}", tag, s);
+    c.le((q.x() - x).amax(), 0.0, &w("x() is the parameter vector that was set"), inp);
+    c.le(err_p3(&q.rc, rc, 0.0), 0.0, &w("rc is the rotation centre given"), inp);
+    let mut e: f64 = 0.0;
+    for p in probes3() { e = e.max(err_p3(&(q.transform() * p), &oracle3(x, rc, rc_d, &p), scale.max(p.coords.amax()))); }
+    c.le(e, TOL_RT, &w("transform is rc' + (x0, x1, x2) + Rx(x3) Ry(x4) Rz(x5) (p - rc) for the current parameters"), inp);
+    c.le(err_iso3(&(q.transform() * q.inverse()), &Iso3::identity(), scale), TOL_RT, &w("transform * inverse is the identity"), inp);
+    c.le(err_iso3(&(q.inverse() * q.transform()), &Iso3::identity(), scale), TOL_RT, &w("inverse * transform is the identity"), inp);
+    c.le(err_p3(q.current_rc(), &(q.transform() * rc), scale), TOL_RT, &w("current_rc is transform * rc"), inp);
+    let rot = q.rotations();
+    let turn = |a: f64, b: f64| (a.sin() - b.sin()).abs().max((a.cos() - b.cos()).abs());
+    c.le(turn(rot.r.x, x[3]).max(turn(rot.r.y, x[4])).max(turn(rot.r.z, x[5])), TOL_RT, &w("rotations().r holds the current Euler angles (modulo a full turn)"), inp);
+    c.le(err_m3(&qmat(&rot.q), &rxyz(x[3], x[4], x[5])), TOL_RT, &w("rotations().q is Rx Ry Rz of the current Euler angles"), inp);
+    c.le(err_m3(&qmat(&rot.q), &qmat(&q.transform().rotation)), TOL_RT, &w("rotations().q is the rotation of transform"), inp);
+}
+
+fn run3(c: &mut Ctx) {
+    let trs = [Vector3::new(0.0, 0.0, 0.0), Vector3::new(3.0, -2.0, 0.5), Vector3::new(1000.0, -750.0, 500.0)];
+    let rcs = [Point3::new(0.0, 0.0, 0.0), Point3::new(1.5, -2.25, 4.0), Point3::new(600.0, -600.0, 500.0)];
+    let sets = [
+        Vector6::new(0.5, -0.25, 0.125, 0.3, -0.2, 0.1), Vector6::new(-500.0, 250.0, 100.0, 3.5, 2.0, -4.0), Vector6::new(0.0, 0.0, 0.0, 1.0, FRAC_PI_2, 0.5),
+        Vector6::new(1.0, 2.0, 3.0, -0.7, -FRAC_PI_2, 2.0), Vector6::new(12.0, 7.0, -3.0, PI, 0.0, -PI), Vector6::new(0.0, 0.0, 0.0, 0.0, 0.0, 0.0),
+    ];
+    let shifts = [Vector3::new(1.0, 0.0, 0.0), Vector3::new(-0.375, 12.5, 2.0), Vector3::new(300.0, -0.001, -45.0)];
+    for roll in rolls() { for (pitch, class) in pitches() { for yaw in yaws() { for conv in 0..2 {
+        // conv 0: engeom's order Rx(roll) Ry(pitch) Rz(yaw); conv 1: nalgebra's from_euler_angles = Rz(yaw) Ry(pitch) Rx(roll)
+        let rot = if conv == 0 { quat_xyz(roll, pitch, yaw) } else { UnitQuaternion::from_euler_angles(roll, pitch, yaw) };
+        let cn = if conv == 0 { "Rx*Ry*Rz" } else { "Rz*Ry*Rx" };
+        // the gimbal class of THIS rotation in each of the two Euler orders (exact only where the pitch was given exactly)
+        let (de, dn) = gimbal_offsets(&qmat(&rot));
+        let cl = class_name(if conv == 0 && class == 1 { 1 } else if de < 2e-3 { 2 } else { 0 });
+        let cl_n = if (conv == 1 && class == 1) || dn < 2e-3 { "nalgebra pitch at or within 2e-3 of +-pi/2" } else { "general pose" };
+        // ---- the Euler extraction alone
+        c.r.case();
+        let inpq = || format!("rotation = {} of (roll {:e}, pitch {:e}, yaw {:e})", cn, roll, pitch, yaw);
+        let back = RotationMatrices::from_rotation(&rot);
+        c.le(err_m3(&qmat(&back.q), &qmat(&rot)), TOL_RT, &format!("3D Euler extraction ({}): RotationMatrices::from_rotation(q).q == q", cl), inpq);
+        for tr in trs.iter() {
+            let t = Iso3::from_parts(Translation3::from(*tr), rot);
+            let inp = || format!("t = translation ({}, {}, {}) after {}", tr.x, tr.y, tr.z, inpq());
+            // ---- iso -> params -> iso (nalgebra's Euler conversions)
+            let x = param_from_iso3(&t);
+            c.le(err_iso3(&iso3_from_param(&x), &t, 0.0), TOL_RT, &format!("3D ({}): iso3_from_param(param_from_iso3(t)) == t", cl_n), inp);
+            c.le((x[0] - tr.x).abs().max((x[1] - tr.y).abs()).max((x[2] - tr.z).abs()), 0.0, "3D: param_from_iso3 returns the translation in slots 0, 1, 2", inp);
+            for rc in rcs.iter() {
+                if tr.x == 3.0 && rc.x == 1.5 && class == 0 && conv == 1 { continue; }
+                let scale = tr.amax().max(rc.coords.amax());
+                let inp = || format!("initial = translation ({}, {}, {}) after {}, rc = ({}, {}, {})", tr.x, tr.y, tr.z, inpq(), rc.x, rc.y, rc.z);
+                let q = RcParams3::from_initial(&t, rc);
+                let rc_d = t * rc;
+                c.le(err_iso3(q.transform(), &t, scale), TOL_RT, &format!("3D ({}): RcParams3::from_initial(initial, rc).transform() == initial", cl), inp);
+                c.le(err_p3(q.current_rc(), &rc_d, scale), TOL_RT, "3D: RcParams3::from_initial: current_rc == initial * rc", inp);
+                let x0 = *q.x();
+                state3(c, &q, rc, &rc_d, &x0, scale, "RcParams3 as constructed", &inp);
+                if class == 2 && roll != 0.4 { continue; }
+                for d in shifts.iter() {
+                    let mut q2 = q.clone();
+                    q2.set(&(x0 + Vector6::new(d.x, d.y, d.z, 0.0, 0.0, 0.0)));
+                    let mut e: f64 = 0.0;
+                    for p in probes3() { e = e.max(err_p3(&(q2.transform() * p), &(q.transform() * p + d), scale.max(p.coords.amax()).max(d.amax()))); }
+                    c.le(e, TOL_RT, "3D: a pure-translation parameter change translates every point by exactly that vector", || format!("{} | shift ({}, {}, {})", inp(), d.x, d.y, d.z));
+                }
+                if conv == 0 && (roll == 0.4 || roll == PI) && (yaw == -0.9 || yaw == -PI) && class != 2 {
+                    let mut q = q.clone();
+                    for (k, x) in sets.iter().enumerate() {
+                        q.set(x);
+                        let sc = scale.max(x.fixed_rows::<3>(0).amax());
+                        let inp2 = || format!("{} | after set #{} x = {:?}", inp(), k, x.as_slice());
+                        state3(c, &q, rc, &rc_d, x, sc, "RcParams3 after set()", &inp2);
+                    }
+                }
+            }
+        }
+    } } } }
+}
+
+fn euler_matrices(c: &mut Ctx) {
+    let g = [-2.5, -FRAC_PI_2, -0.4, 0.0, 0.3, FRAC_PI_2, 3.0];
+    for a in g { for b in g { for gm in g {
+        c.r.case();
+        let inp = || format!("from_euler({:e}, {:e}, {:e})", a, b, gm);
+        let m = RotationMatrices::from_euler(a, b, gm);
+        let r = rxyz(a, b, gm);
+        c.le((m.r.x - a).abs().max((m.r.y - b).abs()).max((m.r.z - gm).abs()), 0.0, "Euler matrices: r holds the three angles in order", inp);
+        c.le(err_m3(&qmat(&m.q), &r), TOL_RT, "Euler matrices: q is Rx(rx) * Ry(ry) * Rz(rz)", inp);
+        let ds = [&m.d.x, &m.d.y, &m.d.z];
+        let rds = [&m.rd.x, &m.rd.y, &m.rd.z];
+        for k in 0..3 {
+            let f = |h: f64| { let mut e = [a, b, gm]; e[k] += h; rxyz(e[0], e[1], e[2]) };
+            let fd = (f(-2.0 * H) - f(-H) * 8.0 + f(H) * 8.0 - f(2.0 * H)) / (12.0 * H);
+            c.le(err_m3(ds[k], &fd), TOL_D, "Euler matrices: d.k == central finite difference of the rotation matrix w.r.t. angle k", || format!("{} | k = {}", inp(), k));
+            c.le(err_m3(rds[k], &(fd * r.transpose())), TOL_D, "Euler matrices: rd.k == (dR/d angle k) * R^-1", || format!("{} | k = {}", inp(), k));
+        }
+    } } }
+}
+
+fn jacobians3(c: &mut Ctx) {
+    let inits = [
+        Iso3::identity(),
+        Iso3::from_parts(Translation3::new(8.0, -5.0, -6.0), UnitQuaternion::from_euler_angles(-0.2, 0.3, 0.5)),
+        Iso3::from_parts(Translation3::new(1000.0, -800.0, 600.0), quat_xyz(2.5, -1.0, -2.9)),
+        Iso3::from_parts(Translation3::new(-300.0, 40.0, 900.0), quat_xyz(0.1, 1.3, 3.0)),
+        Iso3::from_parts(Translation3::new(2.0, 1.0, -4.0), quat_xyz(0.6, FRAC_PI_2, 0.0)),
+    ];
+    let rcs = [Point3::new(0.0, 0.0, 0.0), Point3::new(-1.0, -2.0, 3.0), Point3::new(500.0, -600.0, 300.0)];
+    let offs = [Vector3::new(1.0, 2.0, 3.0), Vector3::new(-7.5, 4.0, 0.5), Vector3::new(20.0, -15.0, 30.0)];
+    let normals = [Vector3::new(1.0, 1.0, 1.0), Vector3::new(0.0, 0.0, 1.0), Vector3::new(-2.0, 1.0, 0.5), Vector3::new(0.3, -1.0, -0.2)];
+    let dists = [0.75, -1.5];
+    let pp = [Vector3::new(1.0, -2.0, 0.5), Vector3::new(0.0, 0.0, 3.0), Vector3::new(-4.0, 2.0, 1.0)];
+    for (ti, t) in inits.iter().enumerate() { for rc in rcs.iter() { for moved in [false, true] {
+        let mut q = RcParams3::from_initial(t, rc);
+        if moved { let x = q.x() + Vector6::new(0.5, -0.25, 0.125, 0.3, -0.2, 0.1); q.set(&x); }
+        let x0 = *q.x();
+        let crc = *q.current_rc();
+        let at = |k: usize, h: f64| -> Iso3 { let mut q2 = q.clone(); let mut x = x0; x[k] += h; q2.set(&x); *q2.transform() };
+        let tinv = *q.inverse();
+        for o in offs.iter() {
+            let p = crc + o;                        // the test point, already moved by the current transform
+            let p0 = tinv * p;
+            let pose = || format!("initial #{} (translation ({}, {}, {})), rc = ({}, {}, {}), after set: {}, p = current_rc + ({}, {}, {})",
+                ti, t.translation.vector.x, t.translation.vector.y, t.translation.vector.z, rc.x, rc.y, rc.z, moved, o.x, o.y, o.z);
+            for nv in normals.iter() { for dd in dists {
+                c.r.case();
+                let n = nv.normalize();
+                let tang = n.cross(&Vector3::new(0.1, 0.2, 1.0)).normalize();
+                let inp = || format!("{}, plane normal ({}, {}, {}) normalised, signed distance {}", pose(), nv.x, nv.y, nv.z, dd);
+                // test side: the plane is fixed, any point of it will do (general position: shifted along the plane)
+                let sp = SurfacePoint3::new_normalize(p - n * dd + tang * 1.25, n);
+                let j = point_plane_jacobian(&p, &sp, &q);
+                for k in 0..6 {
+                    let fd = fd4(|h| sp.scalar_projection(&(at(k, h) * p0)).abs());
+                    c.le((j[k] - fd).abs() / (1.0 + j[k].abs()), TOL_J, "3D: point_plane_jacobian entry == central finite difference of |n.(T p - c)| w.r.t. that parameter", || format!("{} | parameter {} analytic {:e} fd {:e}", inp(), k, j[k], fd));
+                }
+                // reference side: the surface point (foot of the perpendicular from p) is moved by the parameters, p is fixed
+                let sf = SurfacePoint3::new_normalize(p - n * dd, n);
+                let jr = point_plane_jacobian_rev(&p, &sf, &q);
+                for k in 0..6 {
+                    let fd = fd4(|h| sf.transformed(&(at(k, h) * tinv)).scalar_projection(&p).abs());
+                    c.le((jr[k] - fd).abs() / (1.0 + jr[k].abs()), TOL_J, "3D: point_plane_jacobian_rev entry == central finite difference of |n'.(p - c')| w.r.t. that parameter of the REFERENCE", || format!("{} | parameter {} analytic {:e} fd {:e}", inp(), k, jr[k], fd));
+                }
+            } }
+            for v in pp.iter() {
+                c.r.case();
+                let cpt = p + v;
+                let inp = || format!("{}, reference point = p + ({}, {}, {})", pose(), v.x, v.y, v.z);
+                let j = point_point_jacobian(&p, &cpt, &q);
+                for k in 0..6 {
+                    let fd = fd4(|h| (at(k, h) * p0 - cpt).norm());
+                    c.le((j[k] - fd).abs() / (1.0 + j[k].abs()), TOL_J, "3D: point_point_jacobian entry == central finite difference of |T p - c| w.r.t. that parameter", || format!("{} | parameter {} analytic {:e} fd {:e}", inp(), k, j[k], fd));
+                }
+            }
+        }
+    } } }
+}
+
+fn handler(c: &mut Ctx) {
+    let means = vec![Point3::new(1.0, 2.0, 3.0), Point3::new(400.0, -500.0, 600.0), Point3::new(7.0, 8.0, 9.0)];
+    let initial = vec![
+        Iso3::from_parts(Translation3::new(1.0, 2.0, 3.0), quat_xyz(0.5, 0.6, 0.7)),
+        Iso3::from_parts(Translation3::new(-40.0, 50.0, 6.0), quat_xyz(-2.8, FRAC_PI_2, 1.0)),
+        Iso3::from_parts(Translation3::new(4.0, 5.0, 6.0), quat_xyz(0.8, -0.9, 3.0)),
+    ];
+    let ident = vec![Iso3::identity(); 3];
+    let raw: Vec<f64> = vec![0.5, -0.25, 0.125, 0.3, -0.2, 0.1, -20.0, 10.0, 5.0, 3.5, FRAC_PI_2, -4.0];
+    for static_i in 0..3usize { for with_initial in [false, true] {
+        c.r.case();
+        let init = if with_initial { &initial } else { &ident };
+        let mut h = ParamHandler::new(static_i, means.clone(), if with_initial { Some(&initial[..]) } else { None });
+        let inp = || format!("ParamHandler::new(static_i = {}, 3 rotation centres, initial = {})", static_i, if with_initial { "3 rotated isometries" } else { "None" });
+        c.r.check(h.params().len() == 12, "handler: two moving bodies have 12 parameters", inp);
+        let mut k = 0;
+        for i in 0..3 {
+            if i != static_i { c.r.check(h.p_index(i) == k, "handler: p_index numbers the moving bodies consecutively", || format!("{} | body {}", inp(), i)); k += 1; }
+            let scale = init[i].translation.vector.amax().max(means[i].coords.amax());
+            c.le(err_iso3(&h.get_transform(i), &init[i], scale), TOL_RT, if with_initial { "handler: get_transform(i) after new(.., Some(initial)) is the initial isometry of body i" } else { "handler: get_transform(i) after new(.., None) is the identity" }, || format!("{} | body {}", inp(), i));
+        }
+        let x = DVector::from_vec(raw.clone());
+        h.set_param(&x);
+        c.le((h.params() - &x).amax(), 0.0, "handler: params() is the vector that was set", inp);
+        for i in 0..3 {
+            let scale = init[i].translation.vector.amax().max(means[i].coords.amax()).max(20.0);
+            let rc_d = init[i] * means[i];
+            if i == static_i {
+                c.le(err_iso3(&h.get_transform(i), &init[i], scale), TOL_RT, "handler: set_param leaves the static body at its initial isometry", || format!("{} | body {}", inp(), i));
+            } else {
+                let b = h.p_index(i) * 6;
+                let xi = Vector6::new(raw[b], raw[b + 1], raw[b + 2], raw[b + 3], raw[b + 4], raw[b + 5]);
+                let mut e: f64 = 0.0;
+                for p in probes3() { e = e.max(err_p3(&(h.get_transform(i) * p), &oracle3(&xi, &means[i], &rc_d, &p), scale.max(p.coords.amax()))); }
+                c.le(e, TOL_RT, "handler: after set_param body i moves by its own block of six parameters", || format!("{} | body {}", inp(), i));
+            }
+        }
+        for a in 0..3 { for b in 0..3 {
+            let rel = h.relative_transform(a, b);
+            let mut e: f64 = 0.0;
+            for p in probes3() { e = e.max(err_p3(&(h.get_transform(b) * (rel * p)), &(h.get_transform(a) * p), 1000.0)); }
+            c.le(e, TOL_RT, "handler: relative_transform(test, ref) == transform(ref)^-1 * transform(test)", || format!("{} | test {} ref {}", inp(), a, b));
+        } }
+        let vals = Vector6::new(1.0, 2.0, 3.0, 4.0, 5.0, 6.0);
+        for i in 0..3 {
+            let mut m = DMatrix::<f64>::zeros(2, 12);
+            h.set_jacobian(&mut m, 1, i, &vals);
+            let mut want = DMatrix::<f64>::zeros(2, 12);
+            if i != static_i { for j in 0..6 { want[(1, h.p_index(i) * 6 + j)] = vals[j]; } }
+            c.le((m - want).amax(), 0.0, "handler: set_jacobian writes the six values into the columns of that body (nothing for the static body)", || format!("{} | body {}", inp(), i));
+        }
+    } }
+}
+
+pub fn run() -> Option<Report> {
+    let mut c = Ctx {
+        r: Report::new("2D: 23 angles (0, +-1e-9 .. +-175 deg, +-(pi-1e-9), +-pi) x 4 translations x 4 rotation centres (<= 1e3); 3D: 6 rolls x 27 pitches (exactly / within 1e-9, 1e-8, 1e-6, 1e-4, 1e-3 of +-pi/2 on both sides, beyond 90 deg) x 5 yaws (at / near +-pi) in both composition orders x 3 translations x 3 centres (<= 1e3); set() sequences of 6 vectors; Jacobians: 5 starting transforms (up to 1e3 away) x 3 centres x 2 states x 3 test points x planes / lines / point pairs in general position, every parameter index, 4th-order central differences with step 1e-4, tolerance 1e-6 relative; Euler matrices on a 7^3 grid; parameter clauses within 1e-9"),
+        m: Meter::new(),
+    };
+    run2(&mut c);
+    jacobians2(&mut c);
+    run3(&mut c);
+    euler_matrices(&mut c);
+    jacobians3(&mut c);
+    handler(&mut c);
+    c.m.dump();
+    Some(c.r)
+}
